@@ -5,6 +5,8 @@ package dual
 // Contracts for the dual WAN/LAN client (properties C15, C08, C04). Comment-only.
 
 /*@
+immutable field DHT.WAN
+immutable field DHT.LAN
 func (dht *DHT) WANActive() bool
   props C15
   ghostvar $sz int = 0
